@@ -435,9 +435,13 @@ def check_norm_cache(ctx: Ctx, view: View) -> None:
         for n in cfg.nodes(lambda n: cfg.kind[n] == "test"):
             t = cfg.ast[n].test
             # if not self.__flag: self.__update()
-            if isinstance(t, ast.UnaryOp) and isinstance(t.op, ast.Not) and isinstance(t.operand, ast.Attribute) and t.operand.attr in flag_names:
-                body = cfg.ast[n].body
-                if any(isinstance(s, ast.Expr) and isinstance(s.value, ast.Call) and isinstance(s.value.func, ast.Attribute) and s.value.func.attr in upd_names for s in body) and not cfg.ast[n].orelse:
+            # tests are canonical (gv.canon: no leading `not`): `if flag: pass else: update()`; the raw form is kept too
+            neg = isinstance(t, ast.UnaryOp) and isinstance(t.op, ast.Not)
+            op_ = t.operand if neg else t
+            if isinstance(op_, ast.Attribute) and op_.attr in flag_names:
+                when_false = cfg.ast[n].body if neg else cfg.ast[n].orelse
+                when_true = cfg.ast[n].orelse if neg else cfg.ast[n].body
+                if any(isinstance(s, ast.Expr) and isinstance(s.value, ast.Call) and isinstance(s.value.func, ast.Attribute) and s.value.func.attr in upd_names for s in when_false) and all(isinstance(s, ast.Pass) for s in when_true):
                     out.append(("after", n))
             conj = t.values if isinstance(t, ast.BoolOp) and isinstance(t.op, ast.And) else [t]
             if any(isinstance(x, ast.Attribute) and x.attr in flag_names and dotted(x.value) == "self" for x in conj):
